@@ -208,28 +208,28 @@ RULE = ("operation lines generated from VERIF_SEED by the harness (mostly-valid 
         "distinct = distinct operation lines")
 
 PROPS = {
-    "C01": P("proof", [("mul", 24, 1500)], ["PT.mul"], rule=RULE),
-    "C02": P("proof", [("grouplaw", 1500, 60000)], ["PT.add", "PT.addnil", "PT.addself", "PT.dbl", "PT.neg", "PT.sub", "PT.subnil", "PT.subself"], rule=RULE),
-    "C03": P("proof", [("decode", 1200, 40000)], ["DEC.*"], rule=RULE),
-    "C04": P("proof", [("enc", 600, 20000), ("roundtrip", 300, 10000)], ["PT.enc", "G.base", "DEC.*"], rule=RULE),
-    "C05": P("proof", [("eq", 1500, 60000)], ["PT.eq", "PT.eqself", "PT.isid"], rule=RULE),
-    "C06": P("proof", [("scarith", 2000, 100000), ("sfarith", 2000, 100000)], ["SC.*", "S.*"], rule=RULE,
+    "C01": P("proof", [("mul", 24, 6000)], ["PT.mul"], rule=RULE),
+    "C02": P("proof", [("grouplaw", 1500, 200000)], ["PT.add", "PT.addnil", "PT.addself", "PT.dbl", "PT.neg", "PT.sub", "PT.subnil", "PT.subself"], rule=RULE),
+    "C03": P("proof", [("decode", 1200, 150000)], ["DEC.*"], rule=RULE),
+    "C04": P("proof", [("enc", 600, 80000), ("roundtrip", 300, 40000)], ["PT.enc", "G.base", "DEC.*"], rule=RULE),
+    "C05": P("proof", [("eq", 1500, 200000)], ["PT.eq", "PT.eqself", "PT.isid"], rule=RULE),
+    "C06": P("proof", [("scarith", 2000, 400000), ("sfarith", 2000, 400000)], ["SC.*", "S.*"], rule=RULE,
              trusted=["math/big Exp/SetBytes/Bytes (Scalar.Pow goes through math/big; modelled as exact modular powering)"]),
-    "C07": P("proof", [("scenc", 2000, 60000), ("sfenc", 1000, 40000)], ["SC.*", "S.*"], rule=RULE,
+    "C07": P("proof", [("scenc", 2000, 240000), ("sfenc", 1000, 160000)], ["SC.*", "S.*"], rule=RULE,
              trusted=["encoding/hex, encoding/binary (modelled)"]),
-    "C08": P("proof", [("h2c", 60, 3000), ("expand", 300, 20000), ("chosenu", 80, 4000), ("fh2f", 500, 20000)],
+    "C08": P("proof", [("h2c", 60, 10000), ("expand", 300, 60000), ("chosenu", 80, 12000), ("fh2f", 500, 80000)],
              ["H2C.h2g", "H2C.e2g", "H2C.h2gu", "H2C.e2gu", "XMD.*", "F.h2f"], rule=RULE,
              trusted=["crypto/sha256 (a parameter H in the theorems; the Lean SHA-256 used by the driver is itself compared with crypto/sha256 by XMD.sha)"]),
-    "C09": P("proof", [("h2s", 100, 5000), ("sfh2f", 1500, 60000), ("expand", 200, 10000), ("chosenu", 40, 2000)],
+    "C09": P("proof", [("h2s", 100, 20000), ("sfh2f", 1500, 240000), ("expand", 200, 60000), ("chosenu", 40, 12000)],
              ["H2C.h2s", "H2C.h2su", "S.h2f", "XMD.*"], rule=RULE,
              trusted=["crypto/sha256 (parameter H)"]),
-    "C10": P("proof", [("history", 12, 400), ("historylong", 0, 12)], ["H.*"], rule=RULE +
+    "C10": P("proof", [("history", 12, 1500), ("historylong", 0, 40)], ["H.*"], rule=RULE +
              "; a history is a sequence of 40 (long: 400) API calls over pools of 4 elements and 4 scalars with 40% aliased choices, every pool variable observed after every step"),
-    "C11": P("proof", [("map", 250, 12000), ("chosenu", 40, 2000)], ["PT.sswu", "PT.map", "PT.iso", "H2C.e2gu"], rule=RULE),
-    "C12": P("proof", [("field", 4000, 250000)], ["F.*"], rule=RULE),
-    "C13": P("proof", [("cmp", 3000, 150000), ("sfcmp", 1000, 50000)], ["SC.*", "S.*"], rule=RULE),
-    "C14": P("proof", [("bits", 1500, 100000)], ["SC.bits"], rule=RULE),
-    "C15": P("proof", [("memvet", 250, 8000)], ["MEM.vet"], special=[special_mem], rule=RULE +
+    "C11": P("proof", [("map", 250, 40000), ("chosenu", 40, 12000)], ["PT.sswu", "PT.map", "PT.iso", "H2C.e2gu"], rule=RULE),
+    "C12": P("proof", [("field", 4000, 1000000)], ["F.*"], rule=RULE),
+    "C13": P("proof", [("cmp", 3000, 600000), ("sfcmp", 1000, 200000)], ["SC.*", "S.*"], rule=RULE),
+    "C14": P("proof", [("bits", 1500, 300000)], ["SC.bits"], rule=RULE),
+    "C15": P("proof", [("memvet", 250, 30000)], ["MEM.vet"], special=[special_mem], rule=RULE +
              "; memory: every slice argument carved out of a sentinel-filled backing array in 7 layouts, backing arrays compared before/after",
              trusted=["Go runtime allocator and escape analysis are not modelled: 'fresh' means not aliasing any buffer the model knows"]),
     "C16": P("proof", [], None, special=[special_race],
@@ -247,7 +247,7 @@ PROPS = {
                          "the executable RFC 9380 specification.",
              rule="one minimal program per build configuration, three hashing functions x {ordinary DST, oversize DST}",
              trusted=["Go linker and package initialisation order (modelled)"]),
-    "C18": P("proof", [("rnd", 400, 20000)], ["RND"], rule=RULE + "; a case is a scripted entropy stream (blocks 0, n, >= n, short reads, failure point) and a read chunk size",
+    "C18": P("proof", [("rnd", 400, 80000)], ["RND"], rule=RULE + "; a case is a scripted entropy stream (blocks 0, n, >= n, short reads, failure point) and a read chunk size",
              trusted=["crypto/rand.Reader and io.ReadFull (the stream model: ReadFull assembles 32 bytes or fails)"]),
     "C19": P("proof", [], None, special=[special_trace],
              rule="recorded function-entry traces of Multiply on an instrumented scratch copy; distinct = distinct scalars",
